@@ -18,7 +18,7 @@ def main():
     c.prove(gen=["net"])
     c.correspond("frame")
     return c.finish(
-        rule="first-send-race: 300 (3000) trials of eight goroutines making the first send to a fresh destination at the same moment; burst-order: 2500 frames from one goroutine to a fresh destination (outgoing queue of 1000); boundary lengths: every payload length within -45..+5 of every power of two 2^5..2^17 (2^21), with and without topic. (enc) 150 (1500) legal frames of types 0,1,2,3,4,255 and payload sizes 0,1,31,32,33,255,256,1000 and random, plus 65535, 65536, 2^20 (thorough: limit-1, limit) written by the real remoteParty.send on a real TLS connection, "
+        rule="first-send-race: 300 (1200; fewer under a low descriptor limit) trials of eight goroutines making the first send to a fresh destination at the same moment; burst-order: 2500 frames from one goroutine to a fresh destination (outgoing queue of 1000); boundary lengths: every payload length within -45..+5 of every power of two 2^5..2^17 (2^21), with and without topic. (enc) 150 (1500) legal frames of types 0,1,2,3,4,255 and payload sizes 0,1,31,32,33,255,256,1000 and random, plus 65535, 65536, 2^20 (thorough: limit-1, limit) written by the real remoteParty.send on a real TLS connection, "
              "compared byte for byte (large: header + SHA-256); topics of length 1,31,33,64 must be refused. (read) 600 (8000) streams through the real readMsg in random chunks: well-formed, truncated, random, illegal combinations, "
              "announcing limit+1.. and ~4 GiB, with and without following frames; boundary table: 4 types x 11 announced sizes around 0, 64 KiB, 1 MiB, the limit and 2^32-1 x 4 amounts of following data, by header. "
              "(live) four real parties on loopback TLS, 1-8 sending goroutines per party x 25 messages of sizes 0..70000 to all others, scenarios healthy / one peer down / one stalled (accepts TCP, never answers) / one garbling "
